@@ -10,78 +10,6 @@ arbitrary per-locker identity / configuration `cfg` and an arbitrary initial
 -/
 namespace BreezyVerif.C26
 
-/-- nobody calls `break_lock` -/
-def Ev.noBreak : Ev → Bool
-  | .start _ .brk => false
-  | _ => true
-
-structure NoBreak (s : Sys) : Prop where
-  pcs : ∀ i, (s.lk i).pc.breaky = false
-  breaks : s.breaks = 0
-  alive : s.brokeAlive = false
-
-theorem NoBreak.step {s : Sys} (nb : NoBreak s) (e : Ev) (he : e.noBreak = true)
-    (hsteal : ∀ j, (s.cfg j).steal = false) : NoBreak (s.step e) := by
-  cases e with
-  | crash i => exact ⟨nb.pcs, nb.breaks, nb.alive⟩
-  | fault i k =>
-    simp only [Sys.step]; split
-    · exact nb
-    · refine ⟨?_, nb.breaks, nb.alive⟩
-      intro j; by_cases hj : j = i
-      · subst hj; simp [lfault_breaky]
-      · simpa [upd, hj] using nb.pcs j
-  | start i op =>
-    simp only [Sys.step]; split
-    · exact nb
-    · split
-      · refine ⟨?_, nb.breaks, nb.alive⟩
-        intro j; by_cases hj : j = i
-        · subst hj
-          simp only [upd_same]
-          cases hb : (startOp (s.lk j) op).pc.breaky
-          · rfl
-          · have := (start_breaky _ _ hb).1
-            subst this; simp [Ev.noBreak] at he
-        · simpa [upd, hj] using nb.pcs j
-      · exact nb
-  | step i =>
-    simp only [Sys.step]; split
-    · exact nb
-    · have hd : (lstep i s.cfg s.crashed (s.lk i) s.held).2.2 = none := by
-        cases h : (lstep i s.cfg s.crashed (s.lk i) s.held).2.2 with
-        | none => rfl
-        | some d =>
-          have := lstep_decision_src i s.cfg s.crashed (s.lk i) s.held (by simp [h])
-          rcases this with h1 | h1
-          · have := nb.pcs i; simp [h1, Pc.breaky] at this
-          · simp [hsteal i] at h1
-      refine ⟨?_, by simp [hd, nb.breaks], by simp [hd, nb.alive, decisionAlive]⟩
-      intro j; by_cases hj : j = i
-      · subst hj
-        simp only [upd_same]
-        cases hb : (lstep j s.cfg s.crashed (s.lk j) s.held).1.pc.breaky
-        · rfl
-        · rcases lstep_breaky j s.cfg s.crashed (s.lk j) s.held hb with h1 | h1
-          · simp [nb.pcs j] at h1
-          · simp [hsteal j] at h1
-      · simpa [upd, hj] using nb.pcs j
-
-theorem NoBreak.run {s : Sys} (nb : NoBreak s) (evs : List Ev) (he : ∀ e ∈ evs, e.noBreak = true)
-    (hsteal : ∀ j, (s.cfg j).steal = false) : NoBreak (s.run evs) := by
-  induction evs generalizing s with
-  | nil => exact nb
-  | cons e es ih =>
-    simp only [Sys.run, List.foldl_cons]
-    apply ih (nb.step e (he e (by simp)) hsteal)
-    · intro e' he'; exact he e' (by simp [he'])
-    · simpa using hsteal
-
-theorem noBreak_breaksOnlyBy {e : Ev} (b : Nat) (h : e.noBreak = true) : e.breaksOnlyBy b = true := by
-  cases e with
-  | start i op => cases op <;> simp_all [Ev.noBreak, Ev.breaksOnlyBy]
-  | _ => rfl
-
 /-- **Key invariant.**  Without `break_lock` and without `locks.steal_dead`, in every
 reachable state — any number of lockers, any interleaving of their transport
 calls, any crashes and injected transport errors, any initial `held/` — a
